@@ -15,19 +15,30 @@ type MatcherFunc func(map[string]*types.Item, map[string]*types.Item) bool
 
 // Native simple interpreter using pure go functions
 type Native struct {
-	filterExpressions    map[string]MatcherFunc
-	keyExpressions       map[string]MatcherFunc
-	writeCondExpressions map[string]MatcherFunc
-	updateExpressions    map[string]UpdaterFunc
+	filterExpressions    map[expressionKey]MatcherFunc
+	keyExpressions       map[expressionKey]MatcherFunc
+	writeCondExpressions map[expressionKey]MatcherFunc
+	updateExpressions    map[expressionKey]UpdaterFunc
+}
+
+// expressionKey identifies a registration by its table and its normalized expression text;
+// keeping the two apart means no table name and expression can be taken for another pair.
+type expressionKey struct {
+	tablename  string
+	expression string
+}
+
+func newExpressionKey(tablename, expression string) expressionKey {
+	return expressionKey{tablename: tablename, expression: hashExpressionKey(expression)}
 }
 
 // NewNativeInterpreter returns a new native interpreter
 func NewNativeInterpreter() *Native {
 	return &Native{
-		filterExpressions:    map[string]MatcherFunc{},
-		keyExpressions:       map[string]MatcherFunc{},
-		writeCondExpressions: map[string]MatcherFunc{},
-		updateExpressions:    map[string]UpdaterFunc{},
+		filterExpressions:    map[expressionKey]MatcherFunc{},
+		keyExpressions:       map[expressionKey]MatcherFunc{},
+		writeCondExpressions: map[expressionKey]MatcherFunc{},
+		updateExpressions:    map[expressionKey]UpdaterFunc{},
 	}
 }
 
@@ -43,7 +54,7 @@ func (ni *Native) Match(input MatchInput) (bool, error) {
 
 // Update change the item with given expression and attributes
 func (ni *Native) Update(input UpdateInput) error {
-	updater, found := ni.updateExpressions[input.TableName+"|"+hashExpressionKey(input.Expression)]
+	updater, found := ni.updateExpressions[newExpressionKey(input.TableName, input.Expression)]
 	if !found {
 		return fmt.Errorf(
 			"%w: updater not found for %q expression in table %q",
@@ -66,11 +77,11 @@ func (ni *Native) getMatcher(tablename, expression string, kind ExpressionType) 
 
 	switch kind {
 	case ExpressionTypeKey:
-		matcher, found = ni.keyExpressions[tablename+"|"+hashExpressionKey(expression)]
+		matcher, found = ni.keyExpressions[newExpressionKey(tablename, expression)]
 	case ExpressionTypeFilter:
-		matcher, found = ni.filterExpressions[tablename+"|"+hashExpressionKey(expression)]
+		matcher, found = ni.filterExpressions[newExpressionKey(tablename, expression)]
 	case ExpressionTypeConditional:
-		matcher, found = ni.writeCondExpressions[tablename+"|"+hashExpressionKey(expression)]
+		matcher, found = ni.writeCondExpressions[newExpressionKey(tablename, expression)]
 	}
 
 	if !found {
@@ -98,21 +109,21 @@ func hashExpressionKey(s string) string {
 
 // AddUpdater add expression updater to use on key or filter queries
 func (ni *Native) AddUpdater(tablename string, expr string, updater UpdaterFunc) {
-	ni.updateExpressions[tablename+"|"+hashExpressionKey(expr)] = updater
+	ni.updateExpressions[newExpressionKey(tablename, expr)] = updater
 }
 
 // AddMatcher add expression matcher to use on key or filter queries
 func (ni *Native) AddMatcher(tablename string, t ExpressionType, expr string, matcher MatcherFunc) {
 	// TODO validate the expresion(expr)
-	key := hashExpressionKey(expr)
+	key := newExpressionKey(tablename, expr)
 
 	switch t {
 	case ExpressionTypeKey:
-		ni.keyExpressions[tablename+"|"+key] = matcher
+		ni.keyExpressions[key] = matcher
 	case ExpressionTypeFilter:
-		ni.filterExpressions[tablename+"|"+key] = matcher
+		ni.filterExpressions[key] = matcher
 	case ExpressionTypeConditional:
-		ni.writeCondExpressions[tablename+"|"+key] = matcher
+		ni.writeCondExpressions[key] = matcher
 	default:
 		panic("NativeInterpreter: unsupported expression type")
 	}
